@@ -957,7 +957,9 @@ def _str_atoms(seq):
     for count, fragment in seq:
         if isatom(fragment):
             # Normal isotope string form is #-Yy, but we want Yy[#]
-            if isisotope(fragment) and 'symbol' not in fragment.__dict__:
+            # D and T (and their ions) carry their own symbol.
+            isotope = fragment.element if fragment.charge != 0 else fragment
+            if isisotope(fragment) and 'symbol' not in isotope.__dict__:
                 ret += "%s[%d]"%(fragment.symbol, fragment.isotope)
             else:
                 ret += fragment.symbol
